@@ -57,6 +57,8 @@ macro_rules! poll_flush {
     ($substream:expr, $cx:ident) => {{
         match $substream {
             SubstreamType::Tcp(substream) => Pin::new(substream).poll_flush($cx),
+            #[cfg(litep2p_verif)]
+            SubstreamType::Verif(substream) => Pin::new(substream).poll_flush($cx),
             #[cfg(feature = "websocket")]
             SubstreamType::WebSocket(substream) => Pin::new(substream).poll_flush($cx),
             #[cfg(feature = "quic")]
@@ -73,6 +75,8 @@ macro_rules! poll_write {
     ($substream:expr, $cx:ident, $frame:expr) => {{
         match $substream {
             SubstreamType::Tcp(substream) => Pin::new(substream).poll_write($cx, $frame),
+            #[cfg(litep2p_verif)]
+            SubstreamType::Verif(substream) => Pin::new(substream).poll_write($cx, $frame),
             #[cfg(feature = "websocket")]
             SubstreamType::WebSocket(substream) => Pin::new(substream).poll_write($cx, $frame),
             #[cfg(feature = "quic")]
@@ -89,6 +93,8 @@ macro_rules! poll_read {
     ($substream:expr, $cx:ident, $buffer:expr) => {{
         match $substream {
             SubstreamType::Tcp(substream) => Pin::new(substream).poll_read($cx, $buffer),
+            #[cfg(litep2p_verif)]
+            SubstreamType::Verif(substream) => Pin::new(substream).poll_read($cx, $buffer),
             #[cfg(feature = "websocket")]
             SubstreamType::WebSocket(substream) => Pin::new(substream).poll_read($cx, $buffer),
             #[cfg(feature = "quic")]
@@ -105,6 +111,8 @@ macro_rules! poll_shutdown {
     ($substream:expr, $cx:ident) => {{
         match $substream {
             SubstreamType::Tcp(substream) => Pin::new(substream).poll_shutdown($cx),
+            #[cfg(litep2p_verif)]
+            SubstreamType::Verif(substream) => Pin::new(substream).poll_shutdown($cx),
             #[cfg(feature = "websocket")]
             SubstreamType::WebSocket(substream) => Pin::new(substream).poll_shutdown($cx),
             #[cfg(feature = "quic")]
@@ -169,6 +177,8 @@ macro_rules! check_size {
 /// Substream type.
 enum SubstreamType {
     Tcp(tcp::Substream),
+    #[cfg(litep2p_verif)]
+    Verif(Box<dyn crate::verif::io::VerifIo>),
     #[cfg(feature = "websocket")]
     WebSocket(websocket::Substream),
     #[cfg(feature = "quic")]
@@ -183,6 +193,8 @@ impl fmt::Debug for SubstreamType {
     fn fmt(&self, f: &mut fmt::Formatter<'_>) -> fmt::Result {
         match self {
             Self::Tcp(_) => write!(f, "Tcp"),
+            #[cfg(litep2p_verif)]
+            Self::Verif(_) => write!(f, "Verif"),
             #[cfg(feature = "websocket")]
             Self::WebSocket(_) => write!(f, "WebSocket"),
             #[cfg(feature = "quic")]
@@ -327,6 +339,17 @@ impl Substream {
         Self::new(peer, substream_id, SubstreamType::WebRtc(substream), codec)
     }
 
+    /// Create new [`Substream`] over an in-memory byte pipe owned by a verification adapter.
+    #[cfg(litep2p_verif)]
+    pub(crate) fn new_verif(
+        peer: PeerId,
+        substream_id: SubstreamId,
+        substream: Box<dyn crate::verif::io::VerifIo>,
+        codec: ProtocolCodec,
+    ) -> Self {
+        Self::new(peer, substream_id, SubstreamType::Verif(substream), codec)
+    }
+
     /// Create new [`Substream`] for mocking.
     #[cfg(test)]
     pub(crate) fn new_mock(
@@ -348,6 +371,8 @@ impl Substream {
     pub async fn close(self) {
         let _ = match self.substream {
             SubstreamType::Tcp(mut substream) => substream.shutdown().await,
+            #[cfg(litep2p_verif)]
+            SubstreamType::Verif(mut substream) => substream.shutdown().await,
             #[cfg(feature = "websocket")]
             SubstreamType::WebSocket(mut substream) => substream.shutdown().await,
             #[cfg(feature = "quic")]
@@ -429,6 +454,14 @@ impl Substream {
             #[cfg(test)]
             SubstreamType::Mock(ref mut substream) =>
                 futures::SinkExt::send(substream, bytes).await,
+            #[cfg(litep2p_verif)]
+            SubstreamType::Verif(ref mut substream) => match self.codec {
+                ProtocolCodec::Unspecified => panic!("codec is unspecified"),
+                ProtocolCodec::Identity(payload_size) =>
+                    Self::send_identity_payload(substream, payload_size, bytes).await,
+                ProtocolCodec::UnsignedVarint(max_size) =>
+                    Self::send_unsigned_varint_payload(substream, bytes, max_size).await,
+            },
             SubstreamType::Tcp(ref mut substream) => match self.codec {
                 ProtocolCodec::Unspecified => panic!("codec is unspecified"),
                 ProtocolCodec::Identity(payload_size) =>
